@@ -15,7 +15,8 @@ ENC = ["asynq/batching.py: BatchBase.flush/cancel/_compute/_computed/is_flushed/
 OPS = ["add", "flush", "cancel", "cancel_err", "item0.value", "batch.value", "batch.error", "queries", "str",
        "lastitem.value"]
 PLANS = ["set_all", "skip_first", "set_none", "item_err_first", "raise_exc", "raise_base", "new_item_in_flush",
-         "set_then_raise", "cancel_self_in_flush"]
+         "set_then_raise", "cancel_self_in_flush",
+         "raise_exc, and the _cancel() hook answers the first unanswered item itself"]
 
 
 class HB(asynq.BatchBase):
@@ -36,6 +37,15 @@ class HB(asynq.BatchBase):
     def _try_switch_active_batch(self):
         if self.env["cur"] is self:
             self.env["cur"] = HB(self.env)
+
+    def _cancel(self):
+        # the documented hook for discarding a batch: this service tells the first request that is still waiting
+        # why it was dropped; the library completes the remaining ones
+        if self.env["plan"] == 9:
+            for it in self.items:
+                if not BT.BatchItemBase.is_computed(it):
+                    it.set_error(self.env["cerr"])
+                    break
 
     def _flush(self):
         self.nflush += 1
@@ -66,7 +76,7 @@ class HB(asynq.BatchBase):
             # the flush body (or a callback it fires) cancels the batch it is flushing, then returns normally
             self.cancel(env["ferr"])
             return
-        if plan in (4, 7):
+        if plan in (4, 7, 9):
             raise env["ferr"]
         if plan == 5:
             raise env["fbase"]
@@ -82,6 +92,10 @@ class HI(asynq.BatchItemBase):
 
 def expected_item(plan, idx, v, env, how):
     """how: 'flush' | 'cancel' (err) -> ('v', v) | ('e', errobj or 'A')"""
+    if plan == 9 and idx == 0:
+        return ("e", env["cerr"])       # flush failed or batch cancelled: the hook answered the first item
+    if plan == 9:
+        return ("e", how[1] if how[0] == "cancel" else env["ferr"])
     if how[0] == "cancel":
         return ("e", how[1])
     if plan in (0, 6):
@@ -117,7 +131,7 @@ def mk(L, debug_batch=False, plans=None):
         rec.clear_fail()
         prog.reset_globals()
         env = {"cur": None, "plan": pl, "items_of": {}, "ierr": prog.E("item"), "ferr": prog.E("flush"),
-               "fbase": prog.BE("flushbase"), "newv": vals[0] + 77}
+               "fbase": prog.BE("flushbase"), "newv": vals[0] + 77, "cerr": prog.E("dropped")}
         try:
             if debug_batch:
                 if pl not in (0,):
@@ -158,7 +172,7 @@ def mk(L, debug_batch=False, plans=None):
                             return rec.fail(desc + ": flush() raised %r for a failing flush body" % (e,))
                         state = "flushed"
                         how = ("flush",)
-                        berr = {4: env["ferr"], 5: env["fbase"], 7: env["ferr"], 8: env["ferr"]}.get(pl)
+                        berr = {4: env["ferr"], 5: env["fbase"], 7: env["ferr"], 8: env["ferr"], 9: env["ferr"]}.get(pl)
                         if berr is not None:
                             state = "cancelled"
                     else:
@@ -189,7 +203,7 @@ def mk(L, debug_batch=False, plans=None):
                     if state == "pending":
                         state = "flushed"
                         how = ("flush",)
-                        berr = {4: env["ferr"], 5: env["fbase"], 7: env["ferr"], 8: env["ferr"]}.get(pl)
+                        berr = {4: env["ferr"], 5: env["fbase"], 7: env["ferr"], 8: env["ferr"], 9: env["ferr"]}.get(pl)
                         if berr is not None:
                             state = "cancelled"
                     exp = expected_item(pl, idx, it.v, env, how)
@@ -204,7 +218,7 @@ def mk(L, debug_batch=False, plans=None):
                     if state == "pending":
                         state = "flushed"
                         how = ("flush",)
-                        berr = {4: env["ferr"], 5: env["fbase"], 7: env["ferr"], 8: env["ferr"]}.get(pl)
+                        berr = {4: env["ferr"], 5: env["fbase"], 7: env["ferr"], 8: env["ferr"], 9: env["ferr"]}.get(pl)
                         if berr is not None:
                             state = "cancelled"
                     try:
@@ -375,7 +389,7 @@ def params(L, nplans=None):
 def conds(tier):
     q = tier == "quick"
     if q:
-        P4 = [0, 1, 4, 6, 8]
+        P4 = [0, 1, 4, 6, 8, 9]
         return [Cond("hist4", mk(4, plans=P4), params(4, len(P4)), pin=2, builds=("C",), budget=300,
                      family="batch API histories of length 4 x flush-body plans %s" % [PLANS[i] for i in P4], encodes=ENC),
                 Cond("hist3", mk(3), params(3), pin=2, builds=("C", "P"), budget=300,
